@@ -121,6 +121,14 @@ def verify_function(repo, qualname, timeout_ms=20000, cfg_symbols=(), want_model
             ob.time = 0.0
             res.obligations.append(ob)
             continue
+        nfailed = sum(failed_per_clause.values())
+        if ob.expect == 'unsat' and nfailed >= 16 and ob.result != 'trivial':
+            # the function already has 16 undischarged obligations: it is not verified; the remaining ones are not attempted
+            ob.result = 'unknown'
+            ob.reason = 'not attempted: the function already has 16 undischarged obligations'
+            ob.time = 0.0
+            res.obligations.append(ob)
+            continue
         if ob.expect == 'not-unsat-strong':
             # vacuity guard that must also withstand MBQI (a refutation found only with MBQI once hid a vacuous loop proof)
             discharge(ob, axioms, timeout_ms=2000, want_model=False, retry=True, cover=True)
@@ -128,7 +136,9 @@ def verify_function(repo, qualname, timeout_ms=20000, cfg_symbols=(), want_model
         elif ob.expect == 'not-unsat':
             discharge(ob, axioms, timeout_ms=min(timeout_ms, 3000), want_model=False, retry=False)
         else:
-            discharge(ob, axioms, timeout_ms=timeout_ms, want_model=want_model)
+            # after a few failures in the same function the patient retries are dropped (first attempt + MBQI only matter for a
+            # function that is already not verified); on a tree where everything verifies this never triggers
+            discharge(ob, axioms, timeout_ms=timeout_ms if nfailed < 6 else min(timeout_ms, 5000), want_model=want_model, retry=nfailed < 6)
             if ob.result not in ('unsat', 'trivial'):
                 failed_per_clause[ckey] = failed_per_clause.get(ckey, 0) + 1
         res.obligations.append(ob)
